@@ -259,6 +259,23 @@ impl PersistentStorageImpl {
     }
 }
 
+/// Grave goods and last wills are parsed when they are handed to the persistence layer. Checking
+/// them with this before the store is touched keeps a malformed registration from being stored and
+/// then answered with an error.
+pub(crate) fn check_registration_value(
+    key: &str,
+    value: &serde_json::Value,
+) -> PersistenceResult<()> {
+    if key.starts_with(SYSTEM_TOPIC_ROOT_PREFIX) {
+        if is_grave_goods_topic(key) {
+            serde_json::from_value::<Option<GraveGoods>>(value.to_owned())?;
+        } else if is_last_will_topic(key) {
+            serde_json::from_value::<Option<LastWill>>(value.to_owned())?;
+        }
+    }
+    Ok(())
+}
+
 fn is_grave_goods_topic(key: &str) -> bool {
     let mut split = key.split('/');
     (
